@@ -1,6 +1,7 @@
 package props
 
 import (
+	"bufio"
 	"bytes"
 	"crypto"
 	"errors"
@@ -8,9 +9,12 @@ import (
 	"io"
 	"math"
 	"math/big"
+	"os"
 	"runtime"
+	"strings"
 	"sync"
 	"syscall"
+	"testing/iotest"
 
 	"gitlab.com/yawning/secp256k1-voi/secec"
 
@@ -415,4 +419,87 @@ func undefinedEncoding(r *gen.Rng) secec.SignatureEncoding {
 		return secec.SignatureEncoding(-1)
 	}
 	return e
+}
+
+// --- entropy readers of the dynamic types programs really pass -------------------
+//
+// The scripted readers above are all one Go type.  A signer that inspects the reader
+// it is given (a type switch on *bytes.Reader / *bufio.Reader / *os.File, a comparison
+// with crypto/rand.Reader, optional interfaces such as io.ByteReader, io.WriterTo,
+// io.ReaderAt, Len()) takes a path none of them reach.  stdReaders delivers the SAME
+// bytes through the standard library's reader types and through wrappers that offer
+// the optional interfaces; `left` reports how many bytes are still unread (-1: the
+// type cannot tell).
+
+type stdReader struct {
+	name  string
+	rd    io.Reader
+	left  func() int
+	total int
+	done  func()
+}
+
+// richReader offers every optional interface of the io package on top of Read; a
+// signer must still take exactly the bytes Read would have delivered.
+type richReader struct {
+	b *bytes.Reader
+}
+
+func (r *richReader) Read(p []byte) (int, error)              { return r.b.Read(p) }
+func (r *richReader) ReadByte() (byte, error)                 { return r.b.ReadByte() }
+func (r *richReader) UnreadByte() error                       { return r.b.UnreadByte() }
+func (r *richReader) ReadAt(p []byte, off int64) (int, error) { return r.b.ReadAt(p, off) }
+func (r *richReader) Seek(o int64, w int) (int64, error)      { return r.b.Seek(o, w) }
+func (r *richReader) WriteTo(w io.Writer) (int64, error)      { return r.b.WriteTo(w) }
+func (r *richReader) Len() int                                { return r.b.Len() }
+func (r *richReader) Size() int64                             { return r.b.Size() }
+func (r *richReader) Close() error                            { return nil }
+func (r *richReader) String() string                          { return "richReader" }
+
+type embedReader struct{ io.Reader }
+
+func stdReaders(data []byte, extra []byte) []stdReader {
+	all := append(append([]byte{}, data...), extra...)
+	var out []stdReader
+	br := bytes.NewReader(all)
+	out = append(out, stdReader{name: "*bytes.Reader", rd: br, left: br.Len, total: len(all)})
+	bb := bytes.NewBuffer(append([]byte{}, all...))
+	out = append(out, stdReader{name: "*bytes.Buffer", rd: bb, left: bb.Len, total: len(all)})
+	sr := strings.NewReader(string(all))
+	out = append(out, stdReader{name: "*strings.Reader", rd: sr, left: sr.Len, total: len(all)})
+	in1 := bytes.NewReader(all)
+	out = append(out, stdReader{name: "*bufio.Reader", rd: bufio.NewReaderSize(in1, 16), left: func() int { return -1 }, total: len(all)})
+	in2 := bytes.NewReader(all)
+	out = append(out, stdReader{name: "*io.LimitedReader", rd: io.LimitReader(in2, int64(len(all))), left: in2.Len, total: len(all)})
+	in3a, in3b := bytes.NewReader(all[:len(all)/3]), bytes.NewReader(all[len(all)/3:])
+	out = append(out, stdReader{name: "io.MultiReader", rd: io.MultiReader(in3a, in3b), left: func() int { return in3a.Len() + in3b.Len() }, total: len(all)})
+	in4 := bytes.NewReader(all)
+	out = append(out, stdReader{name: "*io.SectionReader", rd: io.NewSectionReader(in4, 0, int64(len(all))), left: func() int { return -1 }, total: len(all)})
+	in5 := bytes.NewReader(all)
+	out = append(out, stdReader{name: "struct embedding io.Reader", rd: embedReader{in5}, left: in5.Len, total: len(all)})
+	in6 := bytes.NewReader(all)
+	out = append(out, stdReader{name: "reader with every optional io interface", rd: &richReader{in6}, left: in6.Len, total: len(all)})
+	in7 := bytes.NewReader(all)
+	out = append(out, stdReader{name: "iotest.OneByteReader", rd: iotest.OneByteReader(in7), left: in7.Len, total: len(all)})
+	in8 := bytes.NewReader(all)
+	out = append(out, stdReader{name: "iotest.DataErrReader", rd: iotest.DataErrReader(in8), left: func() int { return -1 }, total: len(all)}) // reads ahead
+	_ = in8.Len
+	in9 := bytes.NewReader(all)
+	out = append(out, stdReader{name: "io.TeeReader", rd: io.TeeReader(in9, io.Discard), left: in9.Len, total: len(all)})
+	pr, pw := io.Pipe()
+	go func() { _, _ = pw.Write(all); _ = pw.Close() }()
+	out = append(out, stdReader{name: "*io.PipeReader", rd: pr, left: func() int { return -1 }, total: len(all), done: func() { _ = pr.Close() }})
+	if f, err := os.CreateTemp("", "verif-entropy-"); err == nil {
+		_, _ = f.Write(all)
+		_, _ = f.Seek(0, io.SeekStart)
+		nm := f.Name()
+		out = append(out, stdReader{name: "*os.File", rd: f, left: func() int {
+			o, err := f.Seek(0, io.SeekCurrent)
+			if err != nil {
+				return -1
+			}
+			return len(all) - int(o)
+		}, total: len(all), done: func() { _ = f.Close(); _ = os.Remove(nm) }})
+	}
+	return out
 }
